@@ -56,8 +56,8 @@ impl Property for C10 {
     }
     fn cases(&self, tier: Tier) -> u64 {
         match tier {
-            Tier::Quick => 300000,
-            Tier::Thorough => 5000000,
+            Tier::Quick => 1_000_000,
+            Tier::Thorough => 15_000_000,
         }
     }
     fn claims_termination(&self) -> bool {
